@@ -26,6 +26,10 @@ def make(spec, lower, upper):
     if k == "const":
         c = spec["c"]
         return lambda y: c
+    if k == "band":          # a huge (finite or infinite) penalty value on a band of the first coordinate, g elsewhere
+        g = make(spec["of"], lower, upper)
+        a, w, big = spec["a"], spec["w"], spec["big"]
+        return lambda y: (big if a < unit(y)[0] < a + w else g(y))
     if k == "offset":        # c + s * g(y): values that are large compared with their variation
         g = make(spec["of"], lower, upper)
         c, sc = spec["c"], spec["s"]
